@@ -79,6 +79,7 @@ def _print_Piecewise(
     printer: CodePrinter, expr: sympy.Piecewise, **kwargs
 ) -> tuple[tuple[str, ...], tuple[str, ...]]:
     from sympy.logic.boolalg import ITE, simplify_logic
+    from sympy.core.relational import Relational
 
     def print_cond(cond):
         """Problem having an ITE in the cond."""
@@ -91,7 +92,15 @@ def _print_Piecewise(
     # to simplify it or turns it into something that is no longer a Piecewise
     # ending with a default (True) branch, which is what the printers expect.
     try:
-        simplified = sympy.simplify(expr)
+        # Evaluate the numbers in the conditions first: sympy.simplify turns e.g.
+        # 'v >= -1*0.5' (an unevaluated product) into the strict inequality 'v > -0.5'
+        # (also in nested conditionals)
+        simplified = sympy.simplify(
+            expr.replace(
+                lambda e: isinstance(e, Relational),
+                lambda e: e.func(*[arg.doit() for arg in e.args]),
+            )
+        )
     except Exception:
         simplified = expr
     if (
